@@ -11,7 +11,7 @@ RULE = ("(a) set/get/list histories of C11 incl. refused calls, growth, merges, 
         "proved balanced (theorems); the free functions are called with NULL; distinct by scenario")
 
 def gen(rng, tier):
-    n = 150 if tier == "quick" else 15000
+    n = 450 if tier == "quick" else 15000
     out = []
     for _ in range(n):
         cmds = [gens.start_cmd(rng, 0)]
